@@ -81,6 +81,12 @@ def cases_gradient(tier):
     add(2, 1, 1, 1, None, True, "mean", shared=True)
     add(2, 2, 2, 1, [True, False], True, "mean", shared=True)
     add(2, 1, 1, 1, None, True, "mean", identical=True, cw=[0.25, 0.75])
+    # request sequences: the function was evaluated at another point (near or far) before a gradient-only request at x, or at x itself
+    for prior in ("near", "far", "same"):
+        add(2, 1, 1, 1, None, False, "mean")
+        out[-1]["prior_function"] = prior
+        add(1, 2, 2, 1, None, False, "mean")
+        out[-1]["prior_function"] = prior
     if not quick:
         add(3, 2, 2, 1, None, False, "mean")
         add(2, 3, 2, 1, None, False, "mean", fp=[[False, True, False], [False, False, False]])
@@ -108,7 +114,7 @@ def cases_gradient(tier):
         yield "R%dP%dN%dJ%dK%d/mask=%s/%s/%s/fr=%s/fp=%s/w=%s%s%s" % (
             c["R"], c["P"], c["N"], c["J"], c["K"], c["mask"], "merged" if c["merge"] else "per-realization", c["est"],
             "".join("F" if f else "o" for f in c["failed_real"]), "|".join("".join("F" if f else "o" for f in row) for row in c["failed_pert"]),
-            c["cw"], "/shared" if c["shared"] else "", "/identical" if c["identical"] else ""), c
+            c["cw"], "/shared" if c["shared"] else "", "/identical" if c["identical"] else "") + ("/function-first-%s" % c["prior_function"] if c.get("prior_function") else ""), c
 
 
 def scn_gradient(T, case):
@@ -167,7 +173,20 @@ def scn_gradient(T, case):
     ests = [H.estimator(ch, case["est"], merge=case["merge"])]
     ev = H.make_evaluator(T, ch, cfg, sev, estimators=ests, samplers=[H.FakeSampler(samples)])
     try:
-        fres, gres = ev.calculate(x, compute_functions=True, compute_gradients=True)
+        if case.get("prior_function"):
+            # a function evaluation at xf, then a gradient-only request at x: the difference quotients must use f(x), whatever is cached
+            if case["prior_function"] == "same":
+                xf = x.copy()
+            else:
+                xf = T.real("x_function", (N,))
+                gap = 1e-9 if case["prior_function"] == "near" else 1.0
+                T.assume(T.any([(xf[i] - x[i] > gap) | (x[i] - xf[i] > gap) for i in range(N)]))
+                if case["prior_function"] == "near":
+                    T.assume(T.all([(xf[i] - x[i] < 1e-6) & (x[i] - xf[i] < 1e-6) for i in range(N)]))
+            ev.calculate(xf, compute_functions=True, compute_gradients=False)
+            gres = ev.calculate(x, compute_functions=False, compute_gradients=True)[-1]
+        else:
+            fres, gres = ev.calculate(x, compute_functions=True, compute_gradients=True)
     except OptimizationAborted:
         T.prove("C02.abort_only_from_stddev_estimator", case["est"] == "stddev")
         return
